@@ -131,7 +131,7 @@ Proof.
     destruct (1 >? nd) eqn:E; [discriminate|]. intros H. injection H as <-.
     cbn. now rewrite map_conv1_repeat.
   - (* mask *) destruct arr; [|now apply normalize_tuple_expand].
-    rewrite Hs. revert H. unfold np_expand, normalize_tuple. cbn.
+    rewrite Hs, Bool.andb_false_r. revert H. unfold np_expand, normalize_tuple. cbn.
     destruct (1 >? nd) eqn:E; [discriminate|]. intros H. injection H as <-.
     cbn. rewrite map_conv1_repeat. do 3 f_equal. lia.
   - (* ellipsis *) revert H. unfold np_expand. cbn.
@@ -421,10 +421,17 @@ Lemma shortcut_same x bs :
   wf x -> forallb (fun b => b) bs = true -> zlen bs = hd 0 (shape x) ->
   getitem x {| sole := true; items := [IMask bs true] |} = getitem x {| sole := false; items := [IMask bs true] |}.
 Proof.
-  intros Hwf Hall Hlen. unfold getitem, getitem_gen. cbn [items].
+  intros Hwf Hall Hlen.
+  destruct bs as [|b0 bs0].
+  { (* an empty mask is not a shortcut any more (repaired): both sides take the general path *)
+    unfold getitem, getitem_gen, normalize_index. cbn [sole items forallb andb]. reflexivity. }
+  set (bs := b0 :: bs0) in *.
+  unfold getitem, getitem_gen. cbn [items].
   destruct (np_getitem (shape x) (dat x) [IMask bs true]) as [| v | sh' d' | sh']; try reflexivity.
   - (* array *)
-    unfold normalize_index. cbn [sole items]. rewrite Hall.
+    unfold normalize_index. cbn [sole items].
+    replace (match bs with [] => false | _ :: _ => true end) with true by reflexivity.
+    rewrite Hall. cbn [andb].
     wf_cases x Hwf; unfold ndim; cbn [shape dat chan meta s0 fsn fsd hd] in *.
     + change (zlen [t1]) with 1. change (Z.to_nat 1) with 1%nat.
       change (normalize_tuple true 1 [IMask bs true]) with (inr [NListB bs] : err + list nitem).
